@@ -127,6 +127,60 @@ theorem C05_new_waituntil_regress_holdfalse_disabled :
       WaitUntil.firstReturn cfg true hist = none := by
   decide
 
+/-- **Legacy `task.wait_until(…, timeout=T)`: first of hold and timeout.**  For every configuration, initial truth,
+no-ties history and every timeout `T > 0` that coincides with no event: the call returns the timeline's first run if
+that happens before `T`, and `{"trigger_type": "timeout"}` at `T` otherwise – in particular a `state_hold` that is
+still running at `T` does NOT turn into a state trigger. -/
+theorem C05_waituntil_timeout (T : Nat) (hT : 0 < T) (cfg : Cfg) (b0 : Bool) (hist : List Evt) (h : NoTies cfg hist)
+    (hne : ∀ e ∈ hist, e.t ≠ T) :
+    WaitUntil.firstReturnT T cfg b0 hist = cutT T (Spec.holdRuns cfg b0 hist).head? := by
+  have hstart : ∀ r, (WaitUntil.start cfg b0).ret = some r → r.1 < T := by
+    intro r hr
+    obtain ⟨cn, S, H⟩ := cfg
+    revert hr
+    unfold WaitUntil.start WaitUntil.startF WaitUntil.unrecordedCurrent
+    cases cn <;> cases H <;> cases S <;> cases b0 <;> simp <;> intro hr <;> rw [← hr] <;> exact hT
+  have := driveT_eq T cfg hist (WaitUntil.start cfg b0) hstart hne (grid_sorted h.2)
+  unfold WaitUntil.firstReturnT
+  rw [this]
+  have h2 := C05_waituntil cfg b0 hist h
+  unfold WaitUntil.firstReturn WaitUntil.firstReturnF at h2
+  unfold WaitUntil.start
+  rw [h2]
+
+/-- **New `task.wait_until(…, timeout=T)`** (first dispatch of the state-trigger decorator and the timeout decorator). -/
+theorem C05_new_waituntil_timeout (T : Nat) (cfg : Cfg) (b0 : Bool) (hist : List Evt) (h : NoTies cfg hist) :
+    New.firstReturnT T cfg b0 hist = cutT T (Spec.holdRuns cfg b0 hist).head? := by
+  unfold New.firstReturnT
+  rw [C05_new_waituntil cfg b0 hist h]
+
+/-- **Triggers made only of any-change names** (`namesOnly`): whatever `state_check_now` / `state_hold_false` /
+the current values are, all four machines produce the timeline of a trigger that is NOT checked at the start and on
+which every match is a candidate – in particular nothing happens at definition time (second part: with an empty
+history there is no run and `task.wait_until` does not return), also with an explicit `state_check_now=True`. -/
+theorem C05_names_only (cfg : Cfg) (b0 : Bool) (hist : List Evt) (h : NoTies (namesOnly cfg) hist) :
+    Legacy.holdRuns (namesOnly cfg) b0 hist = Spec.holdRuns (namesOnly cfg) false hist ∧
+      New.holdRuns (namesOnly cfg) b0 hist = Spec.holdRuns (namesOnly cfg) false hist ∧
+      WaitUntil.firstReturn (namesOnly cfg) b0 hist = (Spec.holdRuns (namesOnly cfg) false hist).head? ∧
+      New.firstReturn (namesOnly cfg) b0 hist = (Spec.holdRuns (namesOnly cfg) false hist).head? := by
+  have hb : Spec.holdRuns (namesOnly cfg) b0 hist = Spec.holdRuns (namesOnly cfg) false hist := by
+    unfold Spec.holdRuns Spec.start namesOnly; simp
+  rw [← hb]
+  exact ⟨C05_legacy _ b0 hist h, C05_new _ b0 hist h, C05_waituntil _ b0 hist h, C05_new_waituntil _ b0 hist h⟩
+
+theorem C05_names_only_no_start (cfg : Cfg) (b0 : Bool) :
+    Spec.holdRuns (namesOnly cfg) b0 [] = [] ∧ Legacy.holdRuns (namesOnly cfg) b0 [] = [] ∧
+      New.holdRuns (namesOnly cfg) b0 [] = [] ∧ WaitUntil.firstReturn (namesOnly cfg) b0 [] = none ∧
+      New.firstReturn (namesOnly cfg) b0 [] = none := by
+  have hs : Spec.holdRuns (namesOnly cfg) b0 [] = [] := by
+    unfold Spec.holdRuns Spec.start namesOnly Spec.drive Spec.flush; simp
+  have hnt : NoTies (namesOnly cfg) [] := ⟨rfl, rfl⟩
+  refine ⟨hs, ?_, ?_, ?_, ?_⟩
+  · rw [C05_legacy _ b0 [] hnt, hs]
+  · rw [C05_new _ b0 [] hnt, hs]
+  · rw [C05_waituntil _ b0 [] hnt, hs]; rfl
+  · rw [C05_new_waituntil _ b0 [] hnt, hs]; rfl
+
 /-- **Irrelevance (timeline).**  Changes that cause no evaluation – unwatched entities, attribute-only updates of a
 value-watched entity – can be inserted anywhere or removed: the timeline's runs do not change. -/
 theorem C05_irrelevant (cfg : Cfg) (b0 : Bool) (hist : List Evt) (hs : hist.Pairwise (fun a b => a.t ≤ b.t)) :
